@@ -196,6 +196,23 @@ def cross_module_tables(ctx, g, rng, n):
             continue
         conts2 = [ir2] + list(ir2.modules)
         attached = {x.uuid for x in nodes}
+        # "the decoder consumes exactly the bytes the encoder produced": what the file holds for a table is the encoding of its value
+        # and nothing else (tables of very different lengths are written one after the other here)
+        try:
+            p = gtirb_from_repo.msg("IR")()
+            p.ParseFromString(buf.getvalue()[8:])
+            pconts = [p] + list(p.modules)
+            for (ci, k), (v, tn) in expect.items():
+                payload = bytes(pconts[ci].aux_data[k].data)
+                direct = impl_encode(g, v, tn)
+                ctx.count("table_payloads_compared")
+                if direct[0] == "ok" and payload != direct[1]:
+                    ctx.add("oracle", "tables:payload-not-the-encoding", "the %s table written for container %d is %d bytes long, the encoding of its value %d bytes%s"
+                            % (tn, ci, len(payload), len(direct[1]), " (the encoding followed by other bytes)" if payload.startswith(direct[1]) else ""),
+                            {"type_name": tn, "container": ci, "payload": payload.hex()[:600], "encoding": direct[1].hex()[:600]})
+                    break
+        except Exception as e:  # noqa: BLE001
+            ctx.add("oracle", "tables:save-load-raised", "re-reading the saved file raised %s" % exc_name(g, e), {})
 
         def norm(x, loaded):
             """value with every UUID-ish leaf as ('node', uuid) when it must be / is a node object, ('uuid', uuid) otherwise"""
